@@ -1,5 +1,6 @@
 import SciVerif.Tie.C12Sem
 import SciVerif.Props.C12
+import SciVerif.Tie.Pins
 /-! Tie A obligations for C12 on the current source. -/
 namespace SciVerif.Tie
 
@@ -10,6 +11,29 @@ theorem generated_discipline : disciplineOk = true := by decide
 /-- the only run-phase code that mutates a received IP's record is the listed finding F12 -/
 theorem generated_racy_sites_known : racySites.all (["Components.MapToTags.Run"].contains ·) = true := by decide
 
+
+-- BEGIN PINS (written by bin/mkpins; do not edit by hand)
+/-- the Go functions this property's model and obligations were written against have exactly the
+pinned skeletons (SHA-256 prefix of the atom list) -/
+theorem pinned_skeletons_c12 :
+    pinsOk
+    [("Cmd.auditInfoToHTML", "c3cd59286ae045b7"),
+     ("Components.Concatenator_Run", "31b9a713ae609514"),
+     ("Components.FileCombinator_Run", "c80f07b773d07bc8"),
+     ("Components.FileGlobber_Run", "ade3767bb72e9c64"),
+     ("Components.FileSplitter_Run", "5b56a840c637c735"),
+     ("Components.IPSelectorSync_Run", "bdc706bc9ab92453"),
+     ("Components.MapToTags_Run", "639dd3a11150ec10"),
+     ("Components.StreamToSubStream_Run", "3877054697bb0416"),
+     ("Scipipe.NewTask", "95298f03c320cb96"),
+     ("Scipipe.Process_Run", "05880ea16e590fb1"),
+     ("Scipipe.Process_createTasks", "8c856d9ef4492f5d"),
+     ("Scipipe.Sink_Run", "2d6c7d95ef617224"),
+     ("Scipipe.newWorkflowWithoutLogging", "6bb5eb2ae17350a8"),
+     ("Scipipe.upstreamProcsForProc", "f9ed2dcd363d8677")] = true := by decide
+-- END PINS
+
 end SciVerif.Tie
+#print axioms SciVerif.Tie.pinned_skeletons_c12
 #print axioms SciVerif.Tie.generated_discipline
 #print axioms SciVerif.Tie.generated_racy_sites_known
